@@ -6,9 +6,10 @@
 //! script := k  mod{k'}  inj*                     k' = 2 + k mod 3 modules; (k/3)%5 = v in 1..k': also run variant v-1
 //! mod    := catch stages bud  progs progs progs  lp(end)     catch odd: Stereotyp.on_panic_catch; 1 + stages mod 3 stages
 //! progs  := n lp(prog){n}                        start programs (by incarnation), message programs (by payload), tasks
-//! prog   := (op a b c)*                          op%8: 0 log c | 1 send_in(gate a odd ? "far" : "out", b ns, payload c)
+//! prog   := (op a b c)*                          op%10: 0 log c | 1 send_in(gate a odd ? "far" : "out", b ns, payload c)
 //!                                                | 2 schedule_in(b ns, payload c) | 3 sleep b ns (tasks) | 4 shutdown()
 //!                                                | 5 shutdow_and_restart_in(b ns) | 6 panic!() | 7 quiet (callbacks)
+//!                                                | 8 / 9 set_stereotyp(on_panic_catch = true / false)       (op%10)
 //! inj    := kind m time payload                  kind%3: 0 handle_message_on(m) | 1 add_message_onto(m.out) | 2 ..(m.far)
 //!
 //! Output: 5 numbers per record
@@ -16,7 +17,8 @@
 //!   4 m id now act+2*inc task id resumed after sleep          5 m 0 now act      at_sim_end
 //!   6 m now inc 0       reset (inc = resets so far)               7 m who x 0        log x (who 0 = callback, 1+id = task)
 //!   8 m 2*who+far d x   send_in             9 m who d x           schedule_in        10 m who 0|1 d  shutdown / restart_in d
-//!   11 m who 0 0        about to panic      12 m 0 0 0 quiet      13 m id 0 0        future of task id dropped unfinished
+//!   11 m who c 0        about to panic (c = on_panic_catch now)   19 m who b 0  set_stereotyp(on_panic_catch = b)
+//!   12 m 0 0 0 quiet      13 m id 0 0        future of task id dropped unfinished
 //!   14 now mask 0 0     after the start-up phase and after each dispatched event: is_active of all modules (bit i = module i)
 //!   15 kind m 0 0       entry of the error returned by the run (kind 0 PanicError, 1 JoinError), in order
 //!   17 0 0 0 0          separator: the whole simulation is then run a second time in the same process
@@ -65,6 +67,7 @@ enum Act {
     RestartIn(u64),
     Panic,
     Quiet,
+    SetCatch(bool),
 }
 
 type Prog = Vec<Act>;
@@ -82,7 +85,7 @@ struct ModCfg {
 
 fn quads(v: &[u64]) -> Prog {
     v.chunks_exact(4)
-        .map(|c| match c[0] % 8 {
+        .map(|c| match c[0] % 10 {
             0 => Act::Log(c[3]),
             1 => Act::Send(c[1] % 2 == 1, c[2], c[3]),
             2 => Act::Sched(c[2], c[3]),
@@ -90,7 +93,9 @@ fn quads(v: &[u64]) -> Prog {
             4 => Act::Shutdown,
             5 => Act::RestartIn(c[2]),
             6 => Act::Panic,
-            _ => Act::Quiet,
+            7 => Act::Quiet,
+            8 => Act::SetCatch(true),
+            _ => Act::SetCatch(false),
         })
         .collect()
 }
@@ -157,8 +162,17 @@ fn simple(m: u64, who: u64, a: Act) {
                 current().shutdow_and_restart_in(Duration::from_nanos(d));
             }
         }
+        Act::SetCatch(b) => {
+            log([19, m, who, b as u64, 0]);
+            current().set_stereotyp(Stereotyp { on_panic_catch: b, ..Stereotyp::HOST });
+        }
         Act::Sleep(_) | Act::Panic | Act::Quiet => {}
     }
+}
+
+/// Stereotyp.on_panic_catch of the running module, as the public getter reports it right now
+fn catching() -> u64 {
+    current().stereotyp().on_panic_catch as u64
 }
 
 /// a callback of the module: sleeps are ignored, `quiet` requests shutdown() unless a request
@@ -167,7 +181,7 @@ fn run_callback(m: u64, p: &[Act]) {
     for &a in p {
         match a {
             Act::Panic => {
-                log([11, m, 0, 0, 0]);
+                log([11, m, 0, catching(), 0]);
                 panic!("scripted panic");
             }
             Act::Quiet => {
@@ -218,7 +232,7 @@ async fn run_task(m: u64, id: u64, inc: u64, p: Prog, guard: Guard) {
                 }
             }
             Act::Panic => {
-                log([11, m, 1 + id, 0, 0]);
+                log([11, m, 1 + id, catching(), 0]);
                 guard.done.set(true);
                 panic!("scripted task panic");
             }
